@@ -8,6 +8,7 @@ WEIGHTS = {'newc': 1, 'newp': 0.4, 'cc': 4, 'cp': 3, 'pc': 3, 'pp': 4, 'remove':
 
 
 def make_cases(chk):
+    dsl.OBSERVE_EACH = True     # the observers are called on every value as soon as it exists, not only afterwards
     n = 40 if chk.tier == 'quick' else 400
     hi = 12 if chk.tier == 'quick' else 16     # the model's exact rationals grow with the length of a history: more histories, not longer ones
     gens = []
@@ -30,4 +31,5 @@ def run(chk, gate, status):
 
 
 def replay(path):
+    dsl.OBSERVE_EACH = True
     return histcheck.replay(path, oracles.c10)
